@@ -12,6 +12,8 @@
 //	graph := N <node>*N        node := `Q v` (parameter.Value[int], DefaultValue v)
 //	                                 | `S salt ns sc*ns na (len id*len)*na`   sc := `-` | id      (nodes.Struct; producers too)
 //	call  := `u p v` | `d p` | `a i`          resp := `ok` | `v n` | `err`
+//	c13.seq only: node id 999999 = a node id / producer name the instance does not have; the answer per
+//	call is the block `<resp> pv <Version() of every parameter in node order> mv <ModelVersion()>`
 //	event := `i opid tid <call>` | `r opid <resp>`
 //
 // Nodes are numbered in a topological order (every dependency has a smaller id).  Every update of a
@@ -323,11 +325,24 @@ type c13Built struct {
 	prods []int
 	pars  []int
 	strs  []int // non-producer struct nodes
+	all   []nodes.Node
 }
 
-func c13Build(g []c13Desc) *c13Built {
+func c13Build(g []c13Desc) *c13Built { return c13BuildNamed(g, false) }
+
+// producer names of the sequential family: prefixes of each other (the lookup is by exact name)
+var c13PrefixNames = []string{"p", "p1", "p10"}
+
+func c13BuildNamed(g []c13Desc, prefixNames bool) *c13Built {
 	b := &c13Built{g: g, inst: graph.New(&refutil.TypeFactory{}), ids: make([]string, len(g)), names: make([]string, len(g)), outs: make([]c13In, len(g))}
 	all := make([]nodes.Node, len(g))
+	b.all = all
+	prodName := func(i int) string {
+		if prefixNames && len(b.prods) < len(c13PrefixNames) {
+			return c13PrefixNames[len(b.prods)]
+		}
+		return "art" + itoa(i) + ".txt"
+	}
 	in := func(i int) c13In {
 		if i < 0 {
 			return nil
@@ -355,13 +370,13 @@ func c13Build(g []c13Desc) *c13Built {
 		case d.hasXs:
 			n := &nodes.Struct[artifact.Artifact, c13P41]{Data: c13P41{A: in(d.sc[0]), B: in(d.sc[1]), C: in(d.sc[2]), D: in(d.sc[3]), Xs: xs, salt: d.salt, yield: d.yield}}
 			all[i] = n
-			b.names[i] = "art" + itoa(i) + ".txt"
+			b.names[i] = prodName(i)
 			b.inst.AddProducer(b.names[i], n.Out())
 			b.prods = append(b.prods, i)
 		default:
 			n := &nodes.Struct[artifact.Artifact, c13P20]{Data: c13P20{A: in(d.sc[0]), B: in(d.sc[1]), salt: d.salt, yield: d.yield}}
 			all[i] = n
-			b.names[i] = "art" + itoa(i) + ".txt"
+			b.names[i] = prodName(i)
 			b.inst.AddProducer(b.names[i], n.Out())
 			b.prods = append(b.prods, i)
 		}
@@ -407,16 +422,27 @@ func (b *c13Built) invoke(k c13Call, payload []byte) (r c13Raw) {
 			r = c13Raw{panicked: true}
 		}
 	}()
+	// k.p == c13Unknown: a node id / producer name the instance does not have (never by accident: an
+	// index outside the tables would be a panic of the HARNESS that the recover above would hide)
+	id, name := "Node-"+itoa(c13Unknown), c13UnknownNames[k.v%len(c13UnknownNames)]
+	if k.p != c13Unknown {
+		id, name = b.ids[k.p], b.names[k.p]
+	}
 	switch k.kind {
 	case 'u':
-		r.ok, r.err = b.inst.UpdateParameter(b.ids[k.p], payload)
+		r.ok, r.err = b.inst.UpdateParameter(id, payload)
 	case 'd':
-		r.data = b.inst.ParameterData(b.ids[k.p])
+		r.data = b.inst.ParameterData(id)
 	default:
-		r.art = b.inst.Artifact(b.names[k.p])
+		r.art = b.inst.Artifact(name)
 	}
 	return r
 }
+
+const c13Unknown = 999999
+
+// near misses of the names p / p1 / p10 / art<i>.txt
+var c13UnknownNames = []string{"p100", "", "P", "p2", "p1 ", "art", "p10.txt"}
 
 func c13Resp(k c13Call, r c13Raw) string {
 	if r.panicked {
@@ -467,19 +493,161 @@ func c13GenCall(c *Ctx, b *c13Built, next *int) c13Call {
 
 // ---- (a) sequential lines ------------------------------------------------------------------------
 
+// c13.seq response block per call:  <ok | v n | err> pv <Version() of every parameter, node order> mv <ModelVersion()>
+//
+// The sequential family also sends: the value a parameter already holds (ApplyMessage still answers
+// (true,nil) and bumps the version), small repeated values, unknown node ids (`u 999999 v`, `d 999999`:
+// i.Node panics INSIDE the lock, the deferred Unlock must release it — the line goes on afterwards),
+// unknown producer names (`a 999999`: Artifact panics before the lock), calls on nodes that are no
+// parameters; reads of every producer right after an update (producers sharing interior nodes, of which
+// only some depend on the updated parameter) and repeated reads with no update in between.  Producer
+// names are prefixes of each other (p, p1, p10).
 func c13Seq(c *Ctx) {
 	g := c13GenGraph(c)
-	b := c13Build(g)
+	nprod := func(g []c13Desc) (n int) {
+		for _, d := range g {
+			if d.prod {
+				n++
+			}
+		}
+		return n
+	}
+	for tries := 0; tries < 4 && nprod(g) < 2 && c.Rng.Intn(5) > 0; tries++ {
+		g = c13GenGraph(c) // mostly 2..3 producers
+	}
+	b := c13BuildNamed(g, true)
+	c.Note("seq.producers=" + itoa(len(b.prods)))
+	memo := map[int]map[int]int{}
+	rel := map[int]map[int]int{} // producer -> parameters it depends on
+	for _, p := range b.prods {
+		rel[p] = c13Paths(g, p, memo)
+	}
+	var partial []int // parameters that at least one producer does not depend on
+	for _, q := range b.pars {
+		for _, p := range b.prods {
+			if rel[p][q] == 0 {
+				partial = append(partial, q)
+				break
+			}
+		}
+	}
+	if len(partial) > 0 {
+		c.Note("seq.graph-with-a-producer-independent-of-some-parameter")
+	}
+	cur := map[int]int{} // current value per parameter
+	for _, p := range b.pars {
+		cur[p] = g[p].def
+	}
 	K := 1 + c.Rng.Intn(24)
 	next := 1000
+	var queue []c13Call // reads scheduled right after an update
 	var calls, resps []string
+	lastRead := map[int]bool{}    // producer -> read before
+	updSince := map[int][]int{}   // producer -> parameters updated (ok) since its last read
+	var readSinceUpd map[int]bool // producers read since the last ok update (nil before the first)
+	others := append(append([]int{}, b.strs...), b.prods...)
 	for j := 0; j < K; j++ {
-		k := c13GenCall(c, b, &next)
-		if k.kind == 'u' && c.Rng.Intn(4) == 0 {
-			k.v = c.Rng.Intn(5) // sequential lines also write repeated / small values
+		var k c13Call
+		if len(queue) > 0 {
+			k, queue = queue[0], queue[1:]
+		} else {
+			switch r := c.Rng.Intn(100); {
+			case r < 36:
+				k.kind, k.p = 'u', b.pars[c.Rng.Intn(len(b.pars))]
+				if len(partial) > 0 && c.Rng.Intn(2) == 0 {
+					k.p = partial[c.Rng.Intn(len(partial))] // a parameter some producer does not depend on
+				}
+				switch q := c.Rng.Intn(100); {
+				case q < 15:
+					k.v = cur[k.p] // the value it already holds
+					c.Note("seq.update-with-the-current-value")
+				case q < 35:
+					k.v = c.Rng.Intn(5) // small, repeated
+				default:
+					k.v = next
+					next++
+				}
+				if c.Rng.Intn(3) == 0 {
+					// every producer right after the update, in random order, one of them twice
+					for _, pi := range c.Rng.Perm(len(b.prods)) {
+						queue = append(queue, c13Call{kind: 'a', p: b.prods[pi]})
+					}
+					queue = append(queue, c13Call{kind: 'a', p: b.prods[c.Rng.Intn(len(b.prods))]})
+				}
+			case r < 48:
+				k.kind, k.p = 'd', b.pars[c.Rng.Intn(len(b.pars))]
+			case r < 90:
+				k.kind, k.p = 'a', b.prods[c.Rng.Intn(len(b.prods))]
+			case r < 92:
+				k.kind, k.p, k.v = 'u', others[c.Rng.Intn(len(others))], next // not a parameter
+				next++
+			case r < 94:
+				k.kind, k.p = 'd', others[c.Rng.Intn(len(others))]
+			case r < 97:
+				k.kind, k.p, k.v = 'a', c13Unknown, c.Rng.Intn(1000) // v only selects the unknown name
+			case r < 99:
+				k.kind, k.p, k.v = 'u', c13Unknown, next
+				next++
+			default:
+				k.kind, k.p = 'd', c13Unknown
+			}
 		}
+		resp := c13Resp(k, b.invoke(k, []byte(itoa(k.v))))
+		// distribution
+		switch {
+		case k.p == c13Unknown:
+			c.Note("seq.unknown-" + string(k.kind))
+		case k.kind == 'u' && g[k.p].param && resp == "ok":
+			cur[k.p] = k.v
+			for _, p := range b.prods {
+				updSince[p] = append(updSince[p], k.p)
+			}
+			readSinceUpd = map[int]bool{}
+		case k.kind == 'a':
+			if lastRead[k.p] {
+				related, unrelated := 0, 0
+				for _, q := range updSince[k.p] {
+					if rel[k.p][q] > 0 {
+						related++
+					} else {
+						unrelated++
+					}
+				}
+				switch {
+				case related == 0 && unrelated == 0:
+					c.Note("seq.a-repeated-with-no-update-between")
+				case related == 0:
+					c.Note("seq.a-again-after-updates-of-parameters-it-does-not-depend-on")
+				default:
+					c.Note("seq.a-again-after-update-of-a-parameter-it-depends-on")
+				}
+			} else {
+				c.Note("seq.a-first-read-of-producer")
+			}
+			lastRead[k.p] = true
+			updSince[k.p] = nil
+			if readSinceUpd != nil {
+				readSinceUpd[k.p] = true
+				if len(readSinceUpd) == 2 {
+					c.Note("seq.update-followed-by-reads-of-2+-different-producers")
+				}
+			}
+		}
+		if resp == "err" {
+			c.Note("seq.err-response")
+			if j+1 < K {
+				c.Note("seq.calls-continue-after-err")
+			}
+		}
+		// observable state after the call: Version() of every parameter, ModelVersion()
+		var blk strings.Builder
+		blk.WriteString(resp + " pv")
+		for _, p := range b.pars {
+			blk.WriteString(" " + itoa(b.all[p].Version()))
+		}
+		blk.WriteString(" mv " + strconv.FormatUint(uint64(b.inst.ModelVersion()), 10))
 		calls = append(calls, k.String())
-		resps = append(resps, c13Resp(k, b.invoke(k, []byte(itoa(k.v)))))
+		resps = append(resps, blk.String())
 	}
 	c.Emit("c13.seq", c13GraphString(g)+" "+itoa(K)+" "+strings.Join(calls, " "), strings.Join(resps, " "))
 }
